@@ -16,9 +16,9 @@ use yash_env::io::Fd;
 use yash_env::job::Pid;
 use yash_env::semantics::{ExitStatus, Field};
 use yash_env::system::r#virtual::{FileBody, Inode, OpenFileDescription, SystemState};
-use yash_env::system::concurrency::WriteAll as _;
-use yash_env::system::{GetPid as _, Mode};
-use yvcommon::shell::{self, VEnv};
+use yash_env::system::Mode;
+use yash_env::Env;
+use yvcommon::shell::{self, ShellSystem};
 
 /// (short name used in the specification, path in the simulated file system)
 pub const PATHS: &[(&str, &str)] = &[
@@ -55,6 +55,10 @@ pub fn begin_run(state: &Rc<RefCell<SystemState>>, tracked: &[&'static str]) {
     STATE.with(|s| *s.borrow_mut() = Some(Rc::clone(state)));
     OFDS.with(|o| o.borrow_mut().clear());
     TRACKED.with(|t| *t.borrow_mut() = tracked.to_vec());
+}
+
+pub fn with_state<T>(f: impl FnOnce(&Rc<RefCell<SystemState>>) -> T) -> Option<T> {
+    STATE.with(|s| s.borrow().as_ref().map(f))
 }
 
 pub fn end_run() {
@@ -174,8 +178,11 @@ pub fn files(state: &Rc<RefCell<SystemState>>) -> Vec<Value> {
         .collect()
 }
 
-fn obs_main(env: &mut VEnv, args: Vec<Field>) -> Pin<Box<dyn Future<Output = BResult> + '_>> {
+fn obs_main<S: ShellSystem>(env: &mut Env<S>, args: Vec<Field>) -> Pin<Box<dyn Future<Output = BResult> + '_>> {
     Box::pin(async move {
+        // the command under test is over (or its body has started): no more faults
+        let fired = crate::faulty::fired();
+        crate::faulty::disarm();
         let entry_status = env.exit_status;
         let spec = args.first().map(|f| f.value.clone()).unwrap_or_default();
         let (tag, ret) = match spec.split_once('=') {
@@ -198,13 +205,28 @@ fn obs_main(env: &mut VEnv, args: Vec<Field>) -> Pin<Box<dyn Future<Output = BRe
             wr.push(json!({"fd": n, "tok": tok, "ok": ok}));
         }
         shell::push_event(json!({"ev": "obs", "tag": tag, "pid": pid, "st": entry_status.0,
-                                 "tab": tab, "files": fl, "wr": wr}));
+                                 "tab": tab, "files": fl, "wr": wr, "fired": fired}));
         BResult::new(ret.map(ExitStatus).unwrap_or(entry_status))
     })
 }
 
-pub fn register(env: &mut VEnv) {
-    env.builtins.insert("obs", Builtin::new(Type::Mandatory, obs_main));
+/// `arm CALL N ERRNO`: the N-th system call of kind CALL from now on fails with
+/// ERRNO (until the next `obs`).
+fn arm_main<S: ShellSystem>(env: &mut Env<S>, args: Vec<Field>) -> Pin<Box<dyn Future<Output = BResult> + '_>> {
+    Box::pin(async move {
+        let a: Vec<&str> = args.iter().map(|f| f.value.as_str()).collect();
+        match (a.first().and_then(|c| crate::faulty::Call::parse(c)), a.get(1).and_then(|n| n.parse::<u32>().ok()),
+               a.get(2).and_then(|e| crate::faulty::errno_of(e))) {
+            (Some(c), Some(n), Some(e)) => crate::faulty::arm(c, n, e),
+            _ => TOOL_ERROR.with(|t| *t.borrow_mut() = Some(format!("bad arm arguments {a:?}"))),
+        }
+        BResult::new(env.exit_status)
+    })
+}
+
+pub fn register<S: ShellSystem>(env: &mut Env<S>) {
+    env.builtins.insert("obs", Builtin::new(Type::Mandatory, obs_main::<S>));
+    env.builtins.insert("arm", Builtin::new(Type::Mandatory, arm_main::<S>));
 }
 
 /// Creates the character device /tmp/t (FileSpec has no such kind).
